@@ -72,6 +72,8 @@ def run(rep):
     from ..driver import parts
     parts(rep, [lambda: window_boundaries_flow(rep, mir, L)])
     progress_order(rep, mir, L)
+    from ..driver import parts as _parts
+    _parts(rep, [lambda: chain_constructors(rep, mir, L)])
     native_traces(rep)
 
 def _b(v): return z3.BoolVal(v) if isinstance(v, bool) else v
@@ -175,6 +177,36 @@ def window_boundaries_flow(rep, mir, L):
         rep.violated('C06.f ExternalTransformAdaptation::new places the final window as configured', 'new.windows.flow', '%s, e.g. %s' % (bad[0], md), model=md)
     else: rep.holds('C06.f ExternalTransformAdaptation::new: final window starts at num_tune x (1 - step_size_window) rounded down or up, never after num_tune, tuning = true, for all num_tune < 2^32 and fractions in [0, 1]', time.time() - t0)
     rep.cover('C06.f a non-panicking path of the flow strategy\'s new exists', nok > 0)
+
+def chain_constructors(rep, mir, L):
+    """NutsChain::new / MclmcChain::new start counting draws at 0 (the tuning flag of draw d is decided from the draw index) and keep the chain id"""
+    import re as _re
+    bad = []; n = 0
+    for ty, pat in (('NutsChain', r'^chain::<impl at src/chain.rs:\d+:1: \d+:\d+>::new$'), ('MclmcChain', r'^mclmc::<impl at src/mclmc.rs:\d+:1: \d+:\d+>::new$')):
+        fns = [f for nm, f in mir.fns.items() if _re.match(pat, nm) and ty in f.header.split('->')[-1]]
+        if len(fns) != 1: rep.unknown('C06.g %s::new not found' % ty); continue
+        fn = fns[0].parse(); A = RealAlg(); vm = VM(mir, A)
+        vm.add_model(r'^(?!<u64|<f64|core::|std::ops|std::cmp).*', lambda vm, m, c, a: ret(m, Opaque(c[:40])))      # collaborators built inside new() do not matter here
+        args = []
+        for (nm, t) in fn.args:
+            if t == 'u64': args.append(z3.Int('arg_' + nm))
+            elif t == 'f64': args.append(A.fresh('arg_' + nm))
+            elif t == 'bool': args.append(z3.Bool('arg_' + nm))
+            else: args.append(Opaque(t[:30]))
+        try: outs = vm.run(fn, args, Machine())
+        except Exception as e:
+            rep.unknown('C06.g %s::new' % ty, '%s: %s' % (type(e).__name__, str(e)[:200])); continue
+        n += len(outs); rep.absorb_vm(vm)
+        u64s = [a_ for (nm, t), a_ in zip(fn.args, args) if t == 'u64']
+        for (m2, k, v) in outs:
+            if k != 'ret': bad.append((ty, 'new panics', str(v)[:100])); continue
+            dc = L.get(ty, v, 'draw_count'); ch = L.get(ty, v, 'chain')
+            if not (isinstance(dc, int) and dc == 0): bad.append((ty, 'a new chain does not start counting draws at 0 (draw %s would be the first): the first num_tune draws are not the tuning draws' % dc))
+            if not any(z3.is_expr(ch) and z3.eq(ch, u) for u in u64s): bad.append((ty, 'the chain id is not the one passed to new', str(ch)))
+            if L.get(ty, v, 'last_info').name != 'None': bad.append((ty, 'a new chain already has trajectory info'))
+    rep.paths += n
+    if bad: rep.violated('C06.g chain constructors', 'chain_new', 'chain constructor: %s' % (bad[0],), model={'problems': [str(b)[:200] for b in bad]})
+    elif n: rep.holds('C06.g NutsChain::new and MclmcChain::new: draw counter 0, chain id kept, no trajectory info yet (%d paths)' % n)
 
 def progress_order(rep, mir, L):
     """Progress.tuning of draw d must be is_tuning() *after* adapt(d) (NutsChain::draw and MclmcChain::draw)"""
